@@ -374,6 +374,12 @@ func Applicable(target string, c Call) bool {
 		if isRoot(c.P) || ((c.Op == "rename" || c.Op == "link") && isRoot(c.Q)) {
 			return false
 		}
+
+		// a glob that has to list the root directory: relative patterns (the working directory may be "/")
+		// and absolute patterns whose first segment is not literal
+		if c.Op == "glob" && (!c.P.Abs || (len(c.P.Parts) > 0 && strings.ContainsAny(c.P.Parts[0], "*?[\\"))) {
+			return false
+		}
 	}
 
 	return true
